@@ -257,6 +257,27 @@ fn run_op(root: &Path, o: &Value) -> (Value, Value) {
             |v| content(&v),
         ),
         "copy" => wrap(guarded(|| fs::copy_file(&p, q.as_ref().unwrap()).map(|_f| ())), nothing),
+        "write_lim" => {
+            // write-like operations under RLIMIT_FSIZE = 3 bytes: the kernel answers the payload write short
+            let f: Vec<bool> = o["f"].as_array().unwrap().iter().map(|x| x.as_bool().unwrap()).collect();
+            unsafe {
+                libc::signal(libc::SIGXFSZ, libc::SIG_IGN);
+                let rl = libc::rlimit { rlim_cur: 3, rlim_max: libc::RLIM_INFINITY };
+                assert_eq!(0, libc::setrlimit(libc::RLIMIT_FSIZE, &rl));
+            }
+            let r = if f.is_empty() {
+                wrap(guarded(|| fs::write(&p, cbytes.as_ref().unwrap())), nothing)
+            } else {
+                let mut opts = fs::OpenOptions::new();
+                opts.read(f[0]).write(f[1]).append(f[2]).truncate(f[3]).create(f[4]).create_new(f[5]);
+                owrite(&mut opts)
+            };
+            unsafe {
+                let rl = libc::rlimit { rlim_cur: libc::RLIM_INFINITY, rlim_max: libc::RLIM_INFINITY };
+                assert_eq!(0, libc::setrlimit(libc::RLIMIT_FSIZE, &rl));
+            }
+            r
+        }
         "copy_lim" => {
             // RLIMIT_FSIZE makes the kernel cut copy_file_range short: the copy loop has to iterate
             let lim = o["c"]["n"].as_u64().unwrap();
